@@ -1251,11 +1251,56 @@ def _as_expo_poly(r):
     return d
 
 
+def _drop_full_turns(r):
+    """in an exponent: i * pi * q * mod(u, m) with q * m an even integer is i * pi * q * u up to whole turns (e^{2 pi i n} = 1, and
+    mod(u, m) = u - m * floor(u / m)): the mod generator is replaced by its argument.  cos / sin of an angle reduced modulo 360 degrees
+    are those of the angle itself."""
+    if not r.den.is_const() or r.num.has_exp():
+        return r
+    pi_id = TABLE.syms['pi'].id if 'pi' in TABLE.syms else None
+    if pi_id is None:
+        return r
+    dc = r.den.const_value()
+    sub = {}
+    for (atoms, ex), c in r.num.t.items():
+        if ex or len(atoms) != 2:
+            continue
+        dd = dict(atoms)
+        if dd.get(pi_id) != 1:
+            continue
+        other = [k for k in dd if k != pi_id]
+        if len(other) != 1 or dd[other[0]] != 1:
+            continue
+        at = TABLE.atoms[other[0]]
+        if at.kind != 'fn' or at.name != 'mod' or len(at.args) != 2 or not all(isinstance(x, Rat) for x in at.args):
+            continue
+        m = at.args[1].as_fraction()
+        q = c / dc
+        if m is None or q.re != 0:
+            continue
+        turns = q.im * m / 2
+        if turns.denominator == 1:
+            sub[other[0]] = at.args[0]
+    # every occurrence of the generator in the exponent must be of that shape
+    for (atoms, ex), c in r.num.t.items():
+        for k, x in atoms:
+            if k in sub:
+                dd = dict(atoms)
+                q = c / dc
+                m = TABLE.atoms[k].args[1].as_fraction()
+                if ex or len(atoms) != 2 or dd.get(pi_id) != 1 or x != 1 or q.re != 0 or (q.im * m / 2).denominator != 1:
+                    sub.pop(k, None)
+    if not sub:
+        return r
+    return _subst_top(r, sub)
+
+
 def exp(r):
     """e**r as a normal form"""
     r = norm(r)
     if r.is_zero():
         return C(1)
+    r = _drop_full_turns(r)
     d = _as_expo_poly(r)
     if d is None:
         return Rat.atom(TABLE.fn('exp', (r,)))
